@@ -71,10 +71,19 @@ def auth(cls, rng):
     }[cls]()
 
 
+def nonhex_same_length(h):
+    """Strings of exactly the length of the well-formed hex value `h` that are not that many bytes of hex:
+    what a length-first check followed by a lenient decoder (bytes.fromhex skips blanks) lets through."""
+    n = len(h)
+    return ["zz" * (n // 2), h[:n - 2] + "  ", "  " + h[2:], h[:2] + " " + h[3:], h[:n // 2 - 1] + " \t" + h[n // 2 + 1:],
+            h[:n - 4] + " \r\n ", " " * (n - 2) + h[:2], "0x" + h[:n - 2], "0X" + h[:n - 2], h[:n - 1] + "g", "-" + h[1:],
+            h[:n - 1] + "\u0661", h[:4] + "_" + h[5:], h[:n - 1] + "\n", "\n" + h[1:]]
+
+
 def message(r, rng):
     kind = r["kind"]
     h32 = _hex(rng, 32)
-    hashv = {"ok": h32, "31": _hex(rng, 31), "33": _hex(rng, 33), "nonhex": "zz" * 32, "nonstr": 5,
+    hashv = {"ok": h32, "31": _hex(rng, 31), "33": _hex(rng, 33), "nonhex": rng.choice(nonhex_same_length(h32)), "nonstr": 5,
              "extra": h32}[r["hash"]]
     tx = enc.random_tx(rng)
     txhex = enc.tx_bytes(tx).hex()
@@ -147,7 +156,8 @@ def blocks_and_brothers(r, advance, rng):
 
 def ud_value(cls, size, rng):
     other = 32 if size == 16 else 16
-    return {"ok": _hex(rng, size), "nonstr": rng.choice([5, None, [_hex(rng, size)]]), "nonhex": "zz" * size,
+    return {"ok": _hex(rng, size), "nonstr": rng.choice([5, None, [_hex(rng, size)]]),
+            "nonhex": rng.choice(nonhex_same_length(_hex(rng, size))),
             "short": _hex(rng, size - 1), "long": _hex(rng, size + 1), "swapped": _hex(rng, other)}[cls]
 
 
@@ -173,7 +183,7 @@ def concretise(r, v1, rng):
     if cmd == "sign":
         if v1:
             h = _hex(rng, 32)
-            v = {"ok": h, "nonstr": rng.choice([5, None, [h]]), "nonhex": "zz" * 32, "short": _hex(rng, 31),
+            v = {"ok": h, "nonstr": rng.choice([5, None, [h]]), "nonhex": rng.choice(nonhex_same_length(h)), "short": _hex(rng, 31),
                  "long": _hex(rng, 33), "object": {"hash": h}}
             if r["v1msg"] != "absent":
                 d["message"] = v[r["v1msg"]]
